@@ -27,6 +27,7 @@ def simulate(ctx, main, *, max_steps=400_000, max_time=None, epoch=1_700_000_000
     finally:
         ctx.sim_time = loop.time() - start
         ctx.steps = loop.steps
+        _finalize_leftovers(ctx, loop)
         clock.uninstall()
         loop._ready.clear()
         loop._scheduled.clear()
@@ -35,6 +36,43 @@ def simulate(ctx, main, *, max_steps=400_000, max_time=None, epoch=1_700_000_000
         loop.close()
         ctx.loop = None
     return result, outcome
+
+
+def _finalize_leftovers(ctx, loop):
+    """The run is over (its log and choices are frozen).  Close every coroutine that is still suspended NOW, so
+    that their `finally` blocks cannot run at a garbage-collection instant inside a LATER run of this process
+    (where they would consume that run's choices and break replay)."""
+    import gc
+    ctx.log.frozen = True
+    ctx.choices.frozen = True
+    try:
+        tasks = list(asyncio.all_tasks(loop))
+    except Exception:  # pylint: disable=broad-except
+        tasks = []
+    tasks.sort(key=lambda t: getattr(t, '_sim_id', 0))
+    for _ in range(3):
+        for t in tasks:
+            if t.done():
+                continue
+            t._log_destroy_pending = False
+            coro = t.get_coro()
+            try:
+                coro.close()
+            except BaseException:  # pylint: disable=broad-except
+                pass
+        # finally-blocks may have created further tasks
+        try:
+            more = [t for t in asyncio.all_tasks(loop) if t not in tasks]
+        except Exception:  # pylint: disable=broad-except
+            more = []
+        if not more:
+            break
+        more.sort(key=lambda t: getattr(t, '_sim_id', 0))
+        tasks = more
+    loop._ready.clear()
+    loop._scheduled.clear()
+    loop.graveyard.clear()
+    gc.collect()
 
 
 TICK = 1.0 / 1024
